@@ -123,6 +123,9 @@ func (k StructKind) Fields() []Field {
 	out := make([]Field, 0, t.NumField())
 	for i := 0; i < t.NumField(); i++ {
 		f := t.Field(i)
+		if !f.IsExported() {
+			continue // padding or private bookkeeping: not a vocabulary property
+		}
 		out = append(out, Field{i, f.Name, Term(f), f.Type})
 	}
 	return out
